@@ -113,7 +113,14 @@ func (cs *Case) Do(op string) string {
 		cs.c.record(op, "dead")
 		return "dead"
 	}
+	t0 := time.Now()
 	obs := safeDo(cs.r, op, cs.c.OpTimeout)
+	if d := time.Since(t0); d > 700*time.Millisecond && len(cs.c.Stats.Notes) < 40 {
+		cs.c.Stats.Notes = append(cs.c.Stats.Notes, fmt.Sprintf("slow op (%d ms): %.60s => %.40s", d.Milliseconds(), op, obs))
+		if flushEach {
+			fmt.Fprintf(os.Stderr, "slow op (%d ms): %.60s => %.40s\n", d.Milliseconds(), op, obs)
+		}
+	}
 	if strings.HasPrefix(obs, "panic") {
 		cs.c.Stats.Notes = append(cs.c.Stats.Notes, fmt.Sprintf("case %d: %s", cs.N, obs))
 		obs = "panic" // panic messages are not compared with the model
@@ -179,6 +186,10 @@ func (c *Ctx) record(op, obs string) {
 	obs = oneLine(obs)
 	fmt.Fprintln(c.ops, op)
 	fmt.Fprintln(c.impl, obs)
+	if flushEach {
+		c.ops.Flush()
+		c.impl.Flush()
+	}
 	c.Stats.Ops++
 	if len(c.curCase) < 40 {
 		o, b := op, obs
@@ -231,6 +242,8 @@ func (c *Ctx) Fail(what string) {
 }
 
 var suites = map[string]*Suite{}
+
+var flushEach = os.Getenv("VERIF_FLUSH") != ""
 
 func register(s *Suite) { suites[s.Name] = s }
 
